@@ -529,7 +529,9 @@ func init() {
 				}
 				return idx%512 != 0 || !c.TimeUp()
 			}
-			scalars := []string{"null", "true", "false", "0", "-1.5", "1e2", "1e19", "12345678901234567890", "0.1", `""`, `"a"`, `"é"`, `"\""`, `"\u0000"`, "9007199254740993", "1.7976931348623157e308", "-0"}
+			scalars := []string{"null", "true", "false", "0", "-1.5", "1e2", "1e19", "12345678901234567890", "0.1", `""`, `"a"`, `"é"`, `"\""`, `"\u0000"`, "9007199254740993", "1.7976931348623157e308", "-0",
+				// fractions whose shortest form has 16 / 17 significant digits, and the smallest float
+				"0.30000000000000004", "3.141592653589793", "123456789.01234567", "5e-324", "-2.2250738585072014e-308"}
 			depth := 3
 			c08KidCap = 14
 			if !c.Quick() {
